@@ -854,6 +854,18 @@ def run(res):
   n_err = errors_correspondence(res, res.seed, 6000 if thorough else (2000 if deep else 240), 120)
   res.extra["error_logs"] = n_err
   res.extra["errors_wall_s"] = round(time.time() - t0, 1)
+  # ---- (2d) typegraph level: ordered observations are a function of the construction history (heap churn, hash seeds)
+  t0 = time.time()
+  import c04_typegraph  # pylint: disable=import-outside-toplevel
+  n_cmp, tg_diffs = c04_typegraph.run_leg(res, common, 6 if thorough else 2, 40 if thorough else 25)
+  res.count(("typegraph-order", n_cmp))
+  res.extra["typegraph_order_leg"] = {"replays_compared": n_cmp, "differences": len(tg_diffs), "wall_s": round(time.time() - t0, 1)}
+  if tg_diffs:
+    res.violation("typegraph-order-depends-on-heap-or-hash-seed",
+                  "the same construction history replayed in one process (with heap churn in between) / under another hash "
+                  "seed hands out bindings in a different order: %s" % json.dumps(tg_diffs[0])[:600],
+                  {"differences": tg_diffs[:5], "rerun": "PYTHONHASHSEED=<hashseed> /venv/bin/python harness/props/c04_typegraph.py <history> <replays>"})
+  res.obligation("oracle:typegraph-order-is-a-function-of-the-history", not tg_diffs, json.dumps(tg_diffs[:2])[:800])
   # ---- (3)
   finish_e2e()
   res.trusted_base += ["harness/props/c04_units.py (projection pytd -> model value, table translator), c04_runner.py, c04_progs.py",
